@@ -50,7 +50,8 @@ SMALL = [0, 1, 7, 8, 16, 40, 100, 255, 256, 300, 1000, 3000]
 MED = [4000, 16383, 16384, 20000, 30000]
 # single long frame: plaintext = 9 + n. 65510 -> 65519 (largest that fits); 65511 -> ciphertext 65536 (prefix 0);
 # 65526 -> prefix 15 (< tag); 65527 -> prefix 16; 70000; two wraps
-EDGE = [65400, 65509, 65510, 65511, 65512, 65526, 65527, 65528, 65535, 65536, 70000, 131100]
+# 131029 / 196548: plaintext exactly 2 x / 3 x 65519 (every record full, no short tail record)
+EDGE = [65400, 65509, 65510, 65511, 65512, 65526, 65527, 65528, 65535, 65536, 70000, 131028, 131029, 131030, 131100, 196548]
 
 
 def gen_cuts(rng, total):
@@ -274,7 +275,7 @@ def gen_cases(rng, tier):
     cases = C.load_corpus(PROP, "cases")
     # boundary sweep, both mechanisms: every EDGE size once on its own, followed by a small message
     for mech in ("curve", "noise"):
-        for n in (EDGE if not quick else [65510, 65511, 70000]):
+        for n in (EDGE if not quick else [65510, 65511, 70000, 131029]):
             c = base_case(rng, mech)
             c["steps"] = [{"app": [{"len": 20, "seed": 1}]}, {"app": [{"len": n, "seed": 2}]}, {"app": [{"len": 5, "seed": 3}]}]
             c["cuts"] = gen_cuts(rng, stream_len(c))
